@@ -77,6 +77,7 @@ class C06(runner.Check):
         'via': 'servicer' if deploy_kind == 'local' else rng.choice(['servicer', 'stub']),
         'epoch': simclock.EPOCH + rng.randrange(10**6),
     }
+    cfg['id_rot'] = rng.randrange(len(O.STUDY_IDS))  # which adversarial id the main study carries
     faults = []
     for _ in range(rng.choice([1, 1, 2])):
       site = rng.choice(['suggest', 'suggest', 'suggest', 'early_stop'])
